@@ -2,3 +2,4 @@ import Xrfmv.Props.C11
 #print axioms Xrfmv.Props.C11.roundtrip
 #print axioms Xrfmv.Props.C11.roundtrip_iterated
 #print axioms Xrfmv.Props.C11.export_pure
+#print axioms Xrfmv.Props.C11.learned_state_read_at_prediction_is_restored
